@@ -24,6 +24,9 @@ UNARY = ["reciprocal", "positive", "negative", "exp", "exp2", "exp_m1", "log", "
 NEED_OPS = {"i0", "sinc", "acos", "asin", "atan", "cos", "deg2rad", "degrees", "rad2deg", "radians", "sin", "tan"}
 ZERO_SIGN = {"abs", "absolute", "fabs", "negative", "positive", "sqrt", "square", "floor", "ceil", "trunc", "fix", "sin", "sinh", "tan",
              "tanh", "asin", "asinh", "atan", "atanh", "cbrt", "exp_m1", "log_1p", "deg2rad", "rad2deg", "degrees", "radians"}
+# functions whose value is a whole number or the argument itself: compared without any tolerance (seeded change C05o:
+# rint as floor(x + 0.5) moved 2^52 + 1 to its even neighbour — a relative error of 2e-16)
+EXACT = {"rint", "floor", "ceil", "trunc", "fix", "positive", "negative", "abs", "absolute", "fabs", "nan_to_num"}
 ZUNARY = ["negative", "positive", "absolute", "abs", "fabs", "square", "floor", "ceil", "trunc", "fix", "sign"]
 CLOSURES = ["map_log", "map_e_log", "filter_log", "filter_e_log", "filter_map_log", "filter_map_e_log", "for_each_log",
             "for_each_e_log", "into_iter"]
@@ -70,7 +73,7 @@ def agree(case, impl, model):
         # the sign of a zero result is judged for the functions whose definition fixes it (seeded change C05k:
         # abs(-0.0) returned -0.0)
         op = bytes.fromhex(case.split(" ")[1][1:]).decode()
-        return vlib.table_agree(impl, model, 1, zero_sign=op in ZERO_SIGN)
+        return vlib.table_agree(impl, model, 1, zero_sign=op in ZERO_SIGN, exact=op in EXACT)
     if case.startswith("ew2@"):
         return vlib.table_agree(impl, model, 2)
     head = case.split(" ")[0]
@@ -161,13 +164,17 @@ def gen(seed, tier):
     # every pool value through every function (judged against the independent reference)
     for op in UNARY:
         for ty in ("f64p", "f32p"):
-            out.append(f"ew1@{ty} s{hexs(op)} {arr([30], list(range(30)))}")
+            out.append(f"ew1@{ty} s{hexs(op)} {arr([35], list(range(35)))}")
     # nan_to_num keeps every finite value as it is, in the element type: 64-bit integers no double represents
     for ty, vals in (("i64", [2 ** 53 + 1, -(2 ** 53) - 1, 2 ** 62 + 1, 2 ** 63 - 1, -(2 ** 63), 0, 7]), ("u64", [2 ** 53 + 1, 2 ** 64 - 2, 2 ** 63 + 1, 0, 7])):
         out.append(f"ew1@{ty} s{hexs('nan_to_num')} {arr([len(vals)], vals)}")
         out.append(f"ew1@{ty} s{hexs('positive')} {arr([len(vals)], vals)}")
     # integer element types at arguments where the function's value is a whole number (powers of ten / two / e-free):
     # the result is that number, not its neighbour (seeded change C05m: log10 as ln(x)/ln(10) gave 2 for 1000)
+    for ty in ("i64", "u64"):
+        odd = [2 ** 52 + 1, 2 ** 52 + 3, 2 ** 53 - 1, 2 ** 52 - 1, 7, 0]
+        for op in ("rint", "floor", "ceil", "trunc", "fix"):
+            out.append(f"ew1@{ty} s{hexs(op)} {arr([len(odd)], odd)}")
     tens = [10 ** k for k in range(0, 19)]
     twos = [2 ** k for k in range(0, 63, 3)]
     for ty, cap in (("i64", 2 ** 63), ("i32", 2 ** 31), ("u8", 256), ("u64", 2 ** 64)):
